@@ -2,4 +2,11 @@ package main
 
 import "qedverif/cq"
 
-func dispatch11(cmd string, out *cq.Out, seed uint64, tier, arg string) bool { return false }
+func dispatch11(cmd string, out *cq.Out, seed uint64, tier, arg string) bool {
+	switch cmd {
+	case "stress":
+		stressCmd(out, seed, tier)
+		return true
+	}
+	return dispatch12(cmd, out, seed, tier, arg)
+}
